@@ -140,6 +140,7 @@ class VObj:
     def __init__(self, cls, old=False):
         self.cls = cls
         self.fields = VDict(old=old)
+        self.fields.owner = self
         self.dictdata = None      # for subclasses of dict
         self.listdata = None      # for subclasses of list
         self.old = old
@@ -159,6 +160,7 @@ class VDict:
         self.id = next(_ids)
         self.label = None
         self.maybe = {}             # key -> (present Sym bool, value): lazily forked on first access
+        self.owner = None           # the VObj whose attribute dict this is
 
     def __repr__(self):
         return f'VDict({self.d})'
